@@ -1,4 +1,4 @@
-//go:build verif && verif_conc
+//go:build verif && (verif_conc || verif_sock)
 
 package main
 
@@ -99,7 +99,13 @@ func stressAnnRound(o *Out, rng *rand.Rand, clients, perClient int) {
 				if lr.Intn(6) == 0 {
 					ipf = []byte{0, 0, 0, 0} // "use the source address"
 				}
-				pkt := e2eAnnouncePacket(lr, false, ihOf[c], ids[k], uint64(lr.Intn(2)), uint32(lr.Intn(4)), ipf, 50, uint16(7000+lr.Intn(3)), nil)
+				var opts []byte
+				if lr.Intn(4) == 0 {
+					// a LARGE datagram (BEP 41 URL data chained over many options) - up to the 2048 bytes the frontend reads:
+					// what arrives through the socket must be what was sent
+					opts = stressLongOpts([]int{1473, 1485, 1600, 1999, 2047, 2048}[lr.Intn(6)] - 98)
+				}
+				pkt := e2eAnnouncePacket(lr, false, ihOf[c], ids[k], uint64(lr.Intn(2)), uint32(lr.Intn(4)), ipf, 50, uint16(7000+lr.Intn(3)), opts)
 				copy(pkt[0:8], cid)
 				_, _ = conn.Write(pkt)
 				_ = conn.SetReadDeadline(time.Now().Add(6 * time.Second))
@@ -360,26 +366,39 @@ func joinLines(t []string) string {
 }
 
 
-// RACE: the same real-concurrency workloads, meant to be run from a driver built with -race:
-// concurrent datagrams through the real UDP frontend, and concurrent operations on both stores.
-func init() {
-	props["RACE"] = &propDef{glue: "GE", ctype: "ecase", chk: "chkE04", stream: raceStream, replay: func(*Out, map[string]interface{}) error {
-		return fmt.Errorf("not replayable case by case; re-run the check")
-	}, shard: 4, prelude: "From Chihaya Require Import Glue.G06 Glue.G10."}
-}
-
-func raceStream(o *Out, rng *rand.Rand, n int) {
-	for r := 0; r < n/40+1; r++ {
-		stressRound(o, rng, 24, 5)
-		stressAnnRound(o, rng, 24, 4)
-	}
-	raceStores(rng, n)
-}
-
 func sumInts(l []int) int {
 	t := 0
 	for _, v := range l {
 		t += v
 	}
 	return t
+}
+
+
+// stressLongOpts renders a request string as BEP 41 URLData options occupying exactly n bytes.
+func stressLongOpts(n int) []byte {
+	var out []byte
+	first := true
+	for n > 0 {
+		if n == 1 {
+			out = append(out, 1) // NOP
+			break
+		}
+		l := n - 2
+		if l > 255 {
+			l = 255
+			if n-257 == 1 { // leave room for a whole option afterwards
+				l = 254
+			}
+		}
+		data := bytes.Repeat([]byte{'x'}, l)
+		if first && l >= 10 {
+			copy(data, "/?a=b&pad=")
+			first = false
+		}
+		out = append(out, 2, byte(l))
+		out = append(out, data...)
+		n -= 2 + l
+	}
+	return out
 }
